@@ -208,3 +208,18 @@ Section SeekAnyServer.
     rewrite Vm, Vd. assert (E1 : (t <=? k_size k - 1) = true) by (apply N.leb_le; lia). now rewrite E1.
   Qed.
 End SeekAnyServer.
+
+(* ---------- known finding seek-206-digest-unverified, as a witness ---------- *)
+(* the answer to the Range request carries a well-formed Docker-Content-Digest of OTHER content:
+   Seek succeeds and installs that response's body *)
+Definition w_seek_profile := mkProfile true true true false false.
+Definition w_seek_digest : str := zero_digest.
+Definition w_seek_other : str := b "sha256:1111111111111111111111111111111111111111111111111111111111111111".
+Definition w_seek_srv := range_srv w_seek_profile w_seek_digest (b "hello world") (Some (0%nat, KDigOther w_seek_other)).
+
+Lemma seek_206_digest_unverified_refuted :
+  let '(k1, rq, out) := rsc_step (fun _ => mkBm 0 false) w_seek_srv (rsc_open (b "hello world") 11) (SSeek 6 SeekStart) in
+  out = SPos 6 /\ rq = [(6, 10)] /\ k_rc k1 = b "world" /\
+  r_dig (w_seek_srv 0%nat 6 10) = Some w_seek_other /\ valid_digest w_seek_other = true /\
+  str_eqb w_seek_other w_seek_digest = false.
+Proof. vm_compute. repeat split; reflexivity. Qed.
